@@ -213,10 +213,20 @@ Definition ts_rows (tsigs : list (Z * Z * Z)) (first : Z) : list (Z * Z * Z) :=
   | (t, _, _) :: _ => if first <? t then (first, 4, 4) :: tsigs else tsigs
   end.
 
-Definition drop_last_if {A} (l : list A) (p : A -> bool) : list A :=
-  match rev l with
+Fixpoint drop_last_if {A} (p : A -> bool) (l : list A) : list A :=
+  match l with
   | [] => []
-  | x :: r => if p x then rev r else l
+  | x :: r => match r with
+              | [] => if p x then [] else [x]
+              | _ :: _ => x :: drop_last_if p r
+              end
+  end.
+
+(* is the last element of l below v (true for the empty list)? *)
+Fixpoint last_lt (l : list Z) (v : Z) : bool :=
+  match l with
+  | [] => true
+  | x :: r => match r with [] => x <? v | _ :: _ => last_lt r v end
   end.
 
 Definition row_t (r : Z * Z * Z) : Z := fst (fst r).
@@ -228,12 +238,9 @@ Fixpoint zip_stretches (div : Z) (rows : list (Z * Z * Z)) (ends : list Z) : lis
   end.
 
 Definition stretches (div : Z) (tsigs : list (Z * Z * Z)) (first last : Z) : list (Z * Z * Q) :=
-  let rows := drop_last_if (ts_rows tsigs first) (fun r => last <=? row_t r) in
+  let rows := drop_last_if (fun r => last <=? row_t r) (ts_rows tsigs first) in
   let ends0 := map row_t (tl rows) in
-  let ends := match rev ends0 with
-              | [] => [last]
-              | x :: _ => if x <? last then ends0 ++ [last] else ends0
-              end in
+  let ends := if last_lt ends0 last then ends0 ++ [last] else ends0 in
   zip_stretches div rows ends.
 
 (* first existing measure (in time order) that starts in [lo, hi) *)
@@ -312,7 +319,7 @@ Definition chk_estimate (c : Z * Z * option symdur) : bool :=
   let '(d, div, obs) := c in est_matches (estimate d div) obs.
 
 (* O4 on an observed estimator row, independent of the model: 0 = reports none,
-   1 = converts back exactly, 2 = inexact table hit within 1/1000 quarter of a DURS entry,
+   1 = converts back exactly, 2 = inexact table hit within 1/1000 (+1e-9) quarter of a table value,
    3 = inexact tuplet guess whose quotient is within 1/1000 (+1e-9) of actual_notes,
    4 = anything else (a violation) *)
 Definition thousandth : Q := 1 # 1000.
@@ -335,7 +342,7 @@ Definition classify_row (d div : Z) (obs : option symdur) : Z :=
         match sd with
         | (ty, dots, None) =>
           match table_value sd with
-          | Some tv => if Qltb (Qabs (qdur - tv)) thousandth then 2 else 4
+          | Some tv => if Qle_bool (Qabs (qdur - tv)) (thousandth + (1 # 1000000000)) then 2 else 4
           | None => 4
           end
         | (ty, dots, Some (a, n)) =>
